@@ -1599,6 +1599,300 @@ func c13Rejected0RTTRemoved(c *Ctx) {
 	c.Floor(R, "removeFromBytesInFlight calls in DropPackets", n, 1)
 }
 
+// C03.8: a RESET_STREAM(_AT) that changes the reliable size wakes a blocked reader, unless the stream was cancelled
+// locally (no reader is left): a later frame may LOWER the reliable size to or below the read position, at which point
+// the reset error is due and no further data will arrive.
+func c03ReliableSizeChangeWakesReader(c *Ctx) {
+	const R = "C03.8"
+	f := c.fn("", "ReceiveStream", "handleResetStreamFrameImpl")
+	rs := c.fld("", "ReceiveStream", "reliableSize")
+	cl := c.fld("", "ReceiveStream", "cancelledLocally")
+	sig := c.obj("", "ReceiveStream", "signalRead")
+	stores := findInstrs(f, StoresTo(rs))
+	c.Floor(R, "stores of reliableSize in handleResetStreamFrameImpl", len(stores), 1)
+	for i, st := range stores {
+		st := st
+		c.cut(R, fmt.Sprintf("wake:a changed reliable size signals the reader#%d", i+1), &Cut{Fn: f, Start: func(x ssa.Instruction) bool { return x == st }, Target: isReturn, Barrier: CallsTo(sig),
+			Edge: EdgeRel(BoolTrue(Load(cl)), false)},
+			"a Read blocked below the old reliable size re-checks only when it is woken; without the signal it waits for bytes the sender no longer owes")
+	}
+}
+
+// C15.7: AcceptStream hands the wake-up on. newStreamChan holds at most one token; a caller that takes a stream while
+// the next one is already open must put the token back, or a second blocked AcceptStream sleeps although its stream
+// is in the map.
+func c15AcceptPassesWakeupOn(c *Ctx) {
+	const R = "C15.7"
+	ch := c.fld("", "incomingStreamsMap", "newStreamChan")
+	next := c.fld("", "incomingStreamsMap", "nextStreamToAccept")
+	streams := c.fld("", "incomingStreamsMap", "streams")
+	n := 0
+	for _, f := range c.fns("", "incomingStreamsMap", "AcceptStream") {
+		stores := findInstrs(f, func(in ssa.Instruction) bool {
+			st, ok := in.(*ssa.Store)
+			return ok && fieldOfAddress(st.Addr) == next
+		})
+		for _, st := range stores {
+			st := st
+			n++
+			lookupOK := func(v ssa.Value) bool {
+				ex, ok := v.(*ssa.Extract)
+				if !ok || ex.Index != 1 {
+					return false
+				}
+				lk, ok := ex.Tuple.(*ssa.Lookup)
+				return ok && lk.CommaOk && loadsPath(lk.X, streams)
+			}
+			c.cut(R, fmt.Sprintf("pass-on:%s re-signals when the next stream is already open", funcName(f)), &Cut{Fn: f, Start: func(x ssa.Instruction) bool { return x == st }, Target: isReturn, Barrier: sendsOn(ch),
+				Edge: EdgeRel(BoolTrue(lookupOK), true)},
+				"two streams opened while two AcceptStream calls are between Unlock and select leave one token: the caller that takes it must pass it on")
+		}
+	}
+	c.Floor(R, "advances of nextStreamToAccept in AcceptStream", n, 2)
+}
+
+// C18.10: a body (or a DATA frame) that ends before what was declared is an error, on the receiving and on the sending
+// side: body.Read and Stream.Read turn an early io.EOF into io.ErrUnexpectedEOF, sendRequestBody refuses a body whose
+// length differs from Request.ContentLength in either direction.
+func c18ShortBodies(c *Ctx) {
+	const R = "C18.10"
+	isUnexpectedEOF := func(v ssa.Value) bool {
+		u, ok := stripConv(v).(*ssa.UnOp)
+		if !ok || u.Op != token.MUL {
+			return false
+		}
+		g, ok := u.X.(*ssa.Global)
+		return ok && g.Name() == "ErrUnexpectedEOF" && g.Pkg != nil && g.Pkg.Pkg.Path() == "io"
+	}
+	isEOF := func(v ssa.Value) bool {
+		u, ok := stripConv(v).(*ssa.UnOp)
+		if !ok || u.Op != token.MUL {
+			return false
+		}
+		g, ok := u.X.(*ssa.Global)
+		return ok && g.Name() == "EOF" && g.Pkg != nil && g.Pkg.Pkg.Path() == "io"
+	}
+	for _, spec := range []struct {
+		recv, name, field, what string
+	}{{"body", "Read", "remainingContentLength", "declared Content-Length"}, {"Stream", "Read", "bytesRemainingInFrame", "DATA frame length"}} {
+		f := c.fn(h3, spec.recv, spec.name)
+		rem := c.fld(h3, spec.recv, spec.field)
+		found := false
+		for _, g := range helperRegion(f) {
+			eachInstr(g, func(in ssa.Instruction) {
+				r, ok := in.(*ssa.Return)
+				if !ok {
+					return
+				}
+				rs := retResults(r)
+				if len(rs) != 2 || !isUnexpectedEOF(rs[1]) {
+					return
+				}
+				// on the err == io.EOF edge, with something still outstanding
+				if dominatedByEdge(r.Block(), Rel{Op: token.EQL, X: Any(), Y: isEOF}, false) &&
+					(dominatedByEdge(r.Block(), Rel{Op: token.GTR, X: Load(rem), Y: ConstI(0)}, false) || dominatedByEdge(r.Block(), Rel{Op: token.NEQ, X: Load(rem), Y: ConstI(0)}, false)) {
+					found = true
+				}
+			})
+		}
+		c.Check(found, R, "short:"+spec.recv+"."+spec.name+" turns an early EOF into io.ErrUnexpectedEOF", c.P.Pos(f.Pos()),
+			"the stream ended before the "+spec.what+" was received: reported as an error, not as a clean end of the body")
+	}
+	// sender
+	f := c.fn(h3, "ClientConn", "sendRequestBody")
+	cw := c.obj(h3, "RequestStream", "CancelWrite")
+	okNE := false
+	for _, in := range findInstrs(f, CallsTo(cw)) {
+		notConst := func(v ssa.Value) bool { _, isK := stripConv(v).(*ssa.Const); return !isK }
+		if dominatedByEdge(in.Block(), Rel{Op: token.NEQ, X: notConst, Y: ParamV("contentLength")}, false) {
+			okNE = true
+		}
+	}
+	c.Check(okNE, R, "short:sendRequestBody cancels the request when the body length differs from ContentLength", c.P.Pos(f.Pos()),
+		"a body shorter than Request.ContentLength is refused like a longer one (net/http: ContentLength=N with Body length M)")
+}
+
+// C19.10: the request writer sends a method for every request net/http accepts: an empty Request.Method means GET and
+// is written as GET, never as an empty :method (which the parser rejects).
+func c19EmptyMethodIsGET(c *Ctx) {
+	const R = "C19.10"
+	f := c.fn(h3, "requestWriter", "encodeHeaders")
+	method := c.fld("net/http", "Request", "Method")
+	n := 0
+	for _, g := range withAnon(f) {
+		eachInstr(g, func(in ssa.Instruction) {
+			cl, ok := in.(*ssa.Call)
+			if !ok || len(cl.Call.Args) != 2 {
+				return
+			}
+			if s, isS := constString(cl.Call.Args[0]); !isS || s != ":method" {
+				return
+			}
+			n++
+			v := cl.Call.Args[1]
+			// free variables of the closure: look at what the enclosing function bound
+			if fv, isFV := v.(*ssa.FreeVar); isFV {
+				v = freeVarBinding(g, fv)
+			}
+			ok2 := false
+			if v != nil {
+				if u, isU := v.(*ssa.UnOp); isU && u.Op == token.MUL {
+					// a local variable cell: some store into it is the constant "GET"
+					if al, isAl := u.X.(*ssa.Alloc); isAl && al.Referrers() != nil {
+						for _, r := range *al.Referrers() {
+							if st, isSt := r.(*ssa.Store); isSt {
+								if s, isS := constString(st.Val); isS && s == "GET" {
+									ok2 = true
+								}
+							}
+						}
+					}
+				}
+				if ph, isPhi := v.(*ssa.Phi); isPhi {
+					for _, e := range ph.Edges {
+						if s, isS := constString(e); isS && s == "GET" {
+							ok2 = true
+						}
+					}
+				}
+				if !ok2 && loadsPath(v, method) {
+					ok2 = dominatedByEdge(in.Block(), Rel{Op: token.NEQ, X: Load(method), Y: isEmptyStringConst}, false)
+				}
+			}
+			c.Check(ok2, R, fmt.Sprintf("method:the :method written is GET for an empty Request.Method#%d", n), c.P.InstrPos(in),
+				"net/http documents the empty method as GET; written verbatim the request is rejected by every HTTP/3 server")
+		})
+	}
+	c.Floor(R, ":method writes in encodeHeaders", n, 1)
+}
+
+// freeVarBinding: the value the enclosing function bound to closure g's free variable fv (nil if not found).
+func freeVarBinding(g *ssa.Function, fv *ssa.FreeVar) ssa.Value {
+	idx := -1
+	for i, x := range g.FreeVars {
+		if x == fv {
+			idx = i
+		}
+	}
+	p := g.Parent()
+	if idx < 0 || p == nil {
+		return nil
+	}
+	var out ssa.Value
+	eachInstr(p, func(in ssa.Instruction) {
+		if mc, ok := in.(*ssa.MakeClosure); ok && mc.Fn == ssa.Value(g) && idx < len(mc.Bindings) {
+			out = mc.Bindings[idx]
+		}
+	})
+	return out
+}
+
+// C10.10: a spec's connection-ID lengths are honoured whenever they are set: the branch that uses
+// InitialPacketSpec.DestConnIDLength (resp. SrcConnIDLength) for generating the ID is taken for every non-zero value —
+// the test compares the field with the constant 0 only (a narrower test silently replaces short lengths by a random
+// one). And the frame budget a planned flight is validated against is the packet size minus the long header AND minus
+// the AEAD overhead.
+func c10SpecLengthsAndBudget(c *Ctx) {
+	const R = "C10.10"
+	dd := c.fn("", "UTransport", "doDial")
+	dcl := c.fld("", "InitialPacketSpec", "DestConnIDLength")
+	// a package-level function variable (replaceable in tests): calls load it from the global
+	callsGen := func(in ssa.Instruction) bool {
+		cl, ok := in.(*ssa.Call)
+		if !ok {
+			return false
+		}
+		u, ok := cl.Call.Value.(*ssa.UnOp)
+		if !ok || u.Op != token.MUL {
+			return false
+		}
+		g, ok := u.X.(*ssa.Global)
+		return ok && g.Name() == "generateConnectionIDForInitialWithLength"
+	}
+	n := 0
+	for _, in := range findInstrs(dd, callsGen) {
+		n++
+		// the dominating test of DestConnIDLength is `> 0` / `!= 0`
+		ok := dominatedByEdge(in.Block(), Rel{Op: token.GTR, X: Load(dcl), Y: ConstI(0)}, false) || dominatedByEdge(in.Block(), Rel{Op: token.NEQ, X: Load(dcl), Y: ConstI(0)}, false)
+		// and no other comparison of the field guards it
+		other := false
+		for d := in.Block(); d != nil && d.Idom() != nil; d = d.Idom() {
+			id := d.Idom()
+			ifi, isIf := id.Instrs[len(id.Instrs)-1].(*ssa.If)
+			if !isIf {
+				continue
+			}
+			bo, isB := ifi.Cond.(*ssa.BinOp)
+			if !isB || !isCmp(bo.Op) {
+				continue
+			}
+			for _, pr := range [][2]ssa.Value{{bo.X, bo.Y}, {bo.Y, bo.X}} {
+				if Load(dcl)(pr[0]) && !ConstI(0)(pr[1]) {
+					other = true
+				}
+			}
+		}
+		c.Check(ok && !other, R, fmt.Sprintf("honour:every non-zero DestConnIDLength is used for the Initial's destination connection ID#%d", n), c.P.InstrPos(in),
+			"the spec's length is used on the `!= 0` edge and under no narrower test")
+	}
+	c.Floor(R, "generateConnectionIDForInitialWithLength calls in UTransport.doDial", n, 1)
+	// budget = packetSize - header - AEAD overhead
+	fb := c.fn("", "uPacketPacker", "initialFrameBudget")
+	overhead := c.obj("", "sealer", "Overhead")
+	getLen := c.obj("internal/wire", "ExtendedHeader", "GetLength")
+	okBudget := false
+	eachInstr(fb, func(in ssa.Instruction) {
+		r, isR := in.(*ssa.Return)
+		if !isR {
+			return
+		}
+		// the returned value is computed from both subtrahends
+		hasOv, hasHdr := false, false
+		seen := map[ssa.Value]bool{}
+		var walk func(v ssa.Value, d int, neg bool)
+		walk = func(v ssa.Value, d int, neg bool) {
+			if v == nil || d > 10 || seen[v] {
+				return
+			}
+			seen[v] = true
+			switch x := stripConv(v).(type) {
+			case *ssa.BinOp:
+				if x.Op == token.SUB {
+					walk(x.X, d+1, neg)
+					walk(x.Y, d+1, !neg)
+				} else if x.Op == token.ADD {
+					walk(x.X, d+1, neg)
+					walk(x.Y, d+1, neg)
+				}
+			case *ssa.Call:
+				if neg && CallTo(overhead, -1)(x) {
+					hasOv = true
+				}
+				if neg && CallTo(getLen, -1)(x) {
+					hasHdr = true
+				}
+				if builtinName(&x.Call) != "" {
+					for _, a := range x.Call.Args {
+						walk(a, d+1, neg)
+					}
+				}
+			case *ssa.Phi:
+				for _, e := range x.Edges {
+					walk(e, d+1, neg)
+				}
+			}
+		}
+		for _, rv := range retResults(r) {
+			walk(rv, 0, false)
+		}
+		if hasOv && hasHdr {
+			okBudget = true
+		}
+	})
+	c.Check(okBudget, R, "budget:frame budget = packet size − long header − AEAD overhead", c.P.Pos(fb.Pos()),
+		"validateInitialFlight holds every planned payload against this budget: without the 16-byte tag a payload up to 16 bytes too large is accepted and the Initial leaves larger than the spec's packet size")
+}
+
 // valueOf: the instruction as a value (nil if it is not one).
 func valueOf(in ssa.Instruction) ssa.Value {
 	v, _ := in.(ssa.Value)
